@@ -299,7 +299,7 @@ def update_thread_of(m):
     return spo, upd[0]
 
 
-def rule_update_thread(ctx, rid, spo, upd, failing_output=False, termination_only=False):
+def rule_update_thread(ctx, rid, spo, upd, failing_output=False, termination_only=False, sink_outside_lock=False):
     """The update thread, evaluated against every placement of the end of the run.
 
     The observer object is built by interpreting SimpleProgressObserver.__init__; lock, done event, clock, _render and _output
@@ -439,6 +439,11 @@ def rule_update_thread(ctx, rid, spo, upd, failing_output=False, termination_onl
                 outs = [e for e in after if e[0] == "output" and e[2] == ("rendering", last[3])]
                 if not outs:
                     why = "the rendering of the final state is never output"
+            if sink_outside_lock:
+                why = None
+                if [e for e in events if e[0] == "output" and e[1]]:
+                    why = ("the output sink (console print, file write, user callback) is called while the observer's lock is held: every worker "
+                           "takes that lock for its next notification, so a slow sink stalls all workers - ready calls are not started")
             bad_r = [e for e in events if e[0] == "render" and not e[1]]
             bad_w = [e for e in events if e[0] == "flag-write-unlocked"]
             if why is None and bad_r:
@@ -449,6 +454,12 @@ def rule_update_thread(ctx, rid, spo, upd, failing_output=False, termination_onl
             problems.setdefault(why, []).append(k)
         if terminated_without_moment:
             break
+    if sink_outside_lock:
+        ok = not problems
+        ctx.ob(rid, f"{upd.short}/sink-outside-lock", ok, loc(upd),
+               f"evaluated for the end of the run placed at each of the first {K} interactions: the output sink is only ever called with the observer's lock released"
+               if ok else "; ".join(f"{w} (end of run at interaction {ks[0]})" for w, ks in problems.items()))
+        return
     if failing_output or termination_only:
         ok = not problems
         ctx.ob(rid, f"{upd.short}/terminates-with-failing-sink" if failing_output else f"{upd.short}/terminates", ok, loc(upd),
